@@ -71,8 +71,32 @@ impl Monitor for C08 {
                 continue;
             }
             let mut rng = ctx.rng("depth1", i);
-            let (a, b) = (grid(&mut rng), grid(&mut rng));
-            let (sa, sb) = (cpx_expr(a.0, a.1), cpx_expr(b.0, b.1));
+            let (mut a, mut b) = (grid(&mut rng), grid(&mut rng));
+            // one operand in five is purely real or purely imaginary (mixed real/complex applications)
+            if rng.chance(1, 5) {
+                a.1 = 0.0;
+            } else if rng.chance(1, 10) {
+                a.0 = 0.0;
+            }
+            if rng.chance(1, 5) {
+                b.1 = 0.0;
+            } else if rng.chance(1, 10) {
+                b.0 = 0.0;
+            }
+            let lit = |z: (f64, f64)| -> String {
+                if z.1 == 0.0 {
+                    f64_expr(z.0).unwrap()
+                } else if z.0 == 0.0 {
+                    if z.1 < 0.0 {
+                        format!("(-{}i)", -z.1)
+                    } else {
+                        format!("{}i", z.1)
+                    }
+                } else {
+                    cpx_expr(z.0, z.1)
+                }
+            };
+            let (sa, sb) = (lit(a), lit(b));
             let via_ph = rng.chance(1, 4);
             let sa2 = if via_ph { "@".to_string() } else { sa.clone() };
             let s = match rng.below(12) {
